@@ -192,10 +192,11 @@ func (e *Engine) InvMethod(pkgPath string, fn *types.Func, sp *spec.File) (rep *
 		}
 	}
 	fr.onRet = func(st *State, rets []Val) { record(st) }
-	if fs := e.specOf(fn); fs != nil {
+	// callees under contract (in this module or a used one) are replaced by their contracts
+	v.modular = true
+	if fs := e.specOf(fn); fs != nil && !returnsIterator(fn) {
 		// the method is under contract in a used module (where the contract is verified): the invariants are checked
 		// against that contract - its preconditions are input assumptions here, its postconditions describe the exit
-		v.modular = true
 		for _, c := range fs.Clauses {
 			if c.Kind == "requires" {
 				v.reqs = append(v.reqs, v.pre.Tr(c.E).T)
